@@ -88,8 +88,23 @@ class World:
 
     def check(self, warm_tag):
         ctx = self.ctx
-        for I in self.ifaces:
+        rng = self.rng
+        order = list(self.ifaces)
+        mode = rng.choice(['all-in-order', 'shuffled', 'subset'])
+        if mode != 'all-in-order':
+            rng.shuffle(order)
+        if mode == 'subset' and warm_tag != 'final':
+            # leave some interfaces unasked (their memo stays cold or stale across the next re-basing)
+            order = order[:max(1, len(order) // 2)]
+        ctx.count('check_order[%s]' % mode)
+        for I in order:
             allnames = set()
+            if rng.random() < 0.5:
+                # per-name accessors first: the per-specification memo is filled by get() before the
+                # enumerating accessors run, instead of the other way round
+                for name in rng.sample(NAMES, len(NAMES)):
+                    I.get(name)
+                    I.queryTaggedValue(rng.choice(TAGS))
             nd = dict(I.namesAndDescriptions(all=True))
             names_all = set(I.names(all=True))
             it = list(iter(I))
@@ -278,6 +293,7 @@ def run_case(ctx, rng, job):
         if w.rebase() is False:
             break
         w.check('after-rebase')
+    w.check('final')
     ctx.shape(tuple((nm(I.__bases__), tuple(sorted(w.own[id(I)])), tuple(sorted(w.tags[id(I)]))) for I in w.ifaces),
               nontrivial=w.nontrivial)
     ctx.count('worlds')
